@@ -2,6 +2,7 @@ import CqlVerif.Lemmas.Parser
 import CqlVerif.Lemmas.ParserSound
 import CqlVerif.Model.Lexer
 import CqlVerif.Lemmas.Grammar
+import CqlVerif.Lemmas.GrammarStmt
 /-!
 # C06 — The idempotency classifier is sound, case/whitespace-stable and total
 
@@ -114,6 +115,36 @@ example :
     (parseTerm (lexOf ((tm (some { text := [115, 121, 115, 116, 101, 109] }) [78, 111, 87]).render [])) 40 s0 tkLsquare).1.idem = false ∧
     (tm none [104]).nonIdem = false ∧
     (parseTerm (lexOf ((tm none [104]).render [])) 40 s0 tkLsquare).1.idem = true := by
+  decide +kernel
+
+open CqlVerif.Ast in
+/-- **insert_grammar_sound** — a whole statement: for every `INSERT INTO [ks.]table (columns) VALUES (terms) <tail>`
+(any table and keyspace names - `json`, `values` included -, any number of columns, VALUES in any letter case, any
+terms of the grammar above, and any tokens whatever behind the closing parenthesis: IF NOT EXISTS, USING …, `;`,
+garbage), scanned into tokens from the start of the input, and every amount of fuel: if the classifier's verdict is
+"idempotent" then none of the inserted values contains a call of `now()` / `uuid()` at any depth. -/
+theorem insert_grammar_sound (i : Insert) (hkw : i.valuesKw.equal "values" = true) (L : Lexer) (fuel : Nat)
+    (hA : At L 0 i.render) (hi : (classify L fuel).idem = true) : i.vals.nonIdem = false :=
+  insert_sound i hkw L fuel hA hi
+
+open CqlVerif.Ast in
+/-- the same for the lexer that yields exactly the statement's tokens and end of input behind them -/
+theorem insert_grammar_sound_tokens (i : Insert) (hkw : i.valuesKw.equal "values" = true) (fuel : Nat)
+    (hi : (classify (lexOf i.render) fuel).idem = true) : i.vals.nonIdem = false :=
+  insert_sound i hkw _ fuel (by simpa using At_lexOf [] i.render) hi
+
+open CqlVerif.Ast in
+/-- non-vacuity: `INSERT INTO ks.json (a, b) VaLuEs (?, [1, f(x)])` meets the hypotheses (the verdict is "idempotent"),
+and with `uuid()` for `f(x)` the verdict is "not idempotent" -/
+example :
+    let ins (fn : List Nat) (args : Args) : Insert :=
+      { ks := some { text := [107, 115] }, table := { text := [106, 115, 111, 110] }, cols := [{ text := [97] }, { text := [98] }],
+        valuesKw := { text := [86, 97, 76, 117, 69, 115] },
+        vals := .cons .bindQ (.cons (.list (.cons .int (.cons (.call none { text := fn } args) .nil))) .nil), tail := [] }
+    (ins [102] (.col { text := [120] } .nil)).valuesKw.equal "values" = true ∧
+    (classify (lexOf (ins [102] (.col { text := [120] } .nil)).render) 60).idem = true ∧
+    (ins [117, 117, 105, 100] .nil).vals.nonIdem = true ∧
+    (classify (lexOf (ins [117, 117, 105, 100] .nil).render) 60).idem = false := by
   decide +kernel
 
 end CqlVerif.C06
